@@ -89,9 +89,17 @@ def replay(ctx, plan, ops, label, doomed_at=None, doomed=None):
     res = {'refused_edit': None, 'doomed_out': None, 'image': None, 'write_exc': None}
     try:
         w.clock.now = plan['env']['clock0']
-        d.new()
+        early = doomed is not None and doomed['op'] == 'bad_new'
+        try:
+            d.new(refused_first=doomed['kw'] if early else None)
+        except Exception as e:   # the real new() after a refused one
+            res['doomed_out'] = getattr(d, 'refused_new', None)
+            res['refused_edit'] = (-1, {'op': 'new'}, Outcome(False, e))
+            return res
+        if early:
+            res['doomed_out'] = d.refused_new
         for i, op in enumerate(list(ops) + [None]):
-            if doomed is not None and i == doomed_at:
+            if doomed is not None and not early and i == doomed_at:
                 plain = {k: v for k, v in doomed.items() if k not in ('expect', 'cause', 'valid_otherwise', 'category')}
                 ok_to_apply = M.valid(d.model, plain) if doomed.get('valid_otherwise') else not M.valid(d.model, plain)
                 if not ok_to_apply:
@@ -194,6 +202,10 @@ def execute(plan):
                 tag = (cause_stem(cause),)
                 xd = ' [category %s, the call raised %s]' % (cat, out.etype)
                 # (1) a write right after the refused call
+                if b['refused_edit'] is not None:
+                    i_, op_, o2 = b['refused_edit']
+                    ctx.violate(('later-edit-behaves-differently',) + tag, 'edit %d (%s) raises %s in %s after the doomed call: %s' % (i_, op_['op'], o2.etype, o2.where, o2.msg) + xd, fatal=False)
+                    continue
                 if b['image'] is None:
                     o2 = b['write_exc']
                     ctx.violate(('write-after-refusal-fails',) + tag, 'after the refused call write_fp raised %s in %s: %s' % (o2.etype, o2.where, o2.msg) + xd, fatal=False)
